@@ -41,7 +41,9 @@ RULE = ('cases: extent pairs, bounding boxes (boundary) of 1..5 fields incl. who
         'inserts at offsets 1e5 .. 2^40 (equal, or one or two pixels apart), reduces/overlaps of 33..70 fields (tiles sharing '
         'exactly one pixel row/column, abutting tiles, one-pixel-wide bars), and 1-D-like products/inserts of 65..500 (search: 2600) samples. thorough adds two '
         'exhaustive enumerations: every insert with field shape <= 3x3, offset in [-4,4]^2, target <= 4x4 (11 664 cases), and every '
-        'extent pair a = shape <= 5x5 at the origin (plus four shifted copies), b = shape <= 5x5 at offset in [-6,6]^2; corpus: D20 '
+        'extent pair a = shape <= 5x5 at the origin (plus four shifted copies), b = shape <= 5x5 at offset in [-6,6]^2; the container '
+        'type of every offset (list / tuple / ndarray / list of np.int64) is drawn for half of the fields; compositions include '
+        'products that overlap in exactly one pixel followed by a one-element factor on or next to that pixel; corpus: D20 '
         'witnesses (fields wholly outside), the 0-d merge witness fixed by 5cccd0c, spanning-first-field collections, run first. '
         'distinct = canonical (kind, shapes, offsets) signature; non-trivial = extents overlap partially / clipping on some side / '
         'more than one group, i.e. not the all-inside-or-identity case')
@@ -104,6 +106,19 @@ def generate(rng, tier):
                 if rng.integers(0, 5) == 0:          # 0-d product: two 0-d operands at the same offset (what Wavefront * Plane() gives)
                     a = gi_field(rng, (1, 1), a['off']); a['shape'] = []; b = gi_field(rng, (1, 1), a['off']); b['shape'] = []
                     if rng.integers(0, 2): a['off'] = [0, 0]; b['off'] = [0, 0]
+                elif rng.integers(0, 4) == 0:        # a*b overlap in exactly ONE pixel (corner touch): the intermediate product is one-element
+                    ha, wa, hb, wb = (int(x) for x in rng.integers(2, 5, 4))
+                    oa = [int(x) for x in rng.integers(-4, 5, 2)]
+                    a = gi_field(rng, (ha, wa), oa, lo=1); ea = ext_of((ha, wa), oa)
+                    sr, sc = int(rng.integers(0, 2)), int(rng.integers(0, 2))          # which corner of a
+                    pr, pc = (ea[1] if sr else ea[0]), (ea[3] if sc else ea[2])        # the shared pixel
+                    rminb = pr if sr else pr - hb + 1; cminb = pc if sc else pc - wb + 1
+                    b = gi_field(rng, (hb, wb), (rminb + hb // 2, cminb + wb // 2), lo=1)
+                    if nxt == 'mul':
+                        d = [(0, 0), (0, 0), (0, 0), (0, 1), (1, 0)][int(rng.integers(0, 5))]
+                        one = gi_field(rng, (1, 1), (pr + d[0], pc + d[1]), lo=1)
+                        if rng.integers(0, 2): one['shape'] = []
+                        cs = [one]
                 c = {'kind': 'chain', 'a': a, 'b': b, 'then': nxt, 'cs': cs}
                 if nxt == 'insert':
                     c['out'] = gi_field(rng, (int(rng.integers(1, 9)), int(rng.integers(1, 9))), (0, 0))
@@ -157,6 +172,7 @@ def generate(rng, tier):
             out.append(_insert_case(rng))
     # extremes stream: huge offsets, > 32 fields, long 1-D shapes (a small sample in quick/thorough, a large one in search)
     out += _extremes(rng, {'quick': n // 25, 'thorough': n // 20, 'search': n // 3}[tier], lmax=2600 if tier == 'search' else 500)
+    _vary_offset_types(out, rng)
     if tier == 'thorough':
         out += exhaustive_extents() + exhaustive_inserts()
     return out
@@ -400,6 +416,8 @@ def tags(c):
         if not _overlap(ext_of(sa, c['a']['off']), ext_of(sb, c['b']['off'])): t.append('mul:disjoint')
     if k == 'chain':
         t.append('chain:' + c['then'])
+        pe = _ref_mul(c['a'], c['b'])
+        if pe is not None and _is_one(pe) and not (_is_one(c['a']) and _is_one(c['b'])): t.append('chain:one-pixel-product')
         if not _overlap(ext_of(c['a']['shape'], c['a']['off']), ext_of(c['b']['shape'], c['b']['off'])) and not (_is_one(c['a']) != _is_one(c['b'])): t.append('chain:empty-product')
         if _is0d(c['a']) and _is0d(c['b']): t.append('chain:0d-product')
     if k == 'insert_nd': t.append('insert_nd:0d-target' if c['out']['shape'] == [] else 'insert_nd:1d-target')
@@ -442,14 +460,38 @@ def tags(c):
     if k == 'overlap': t.append('overlap:n=2' if len(c['fields']) == 2 else 'overlap:n!=2')
     if k == 'insert' and len(c['field']['shape']) < 2: t.append('insert:0d-field')
     if c.get('ext'): t.append('extreme:' + c['ext'])
+    for f in _case_fields(c):
+        if f.get('ot', 'list') != 'list': t.append('offset-type:' + f['ot'])
     if k in ('reduce', 'overlap') and len(c['fields']) > 32: t.append(k + ':n>32')
     return t
 
 # ------------------------------------------------------------------------------------------ implementation
+_OTYPES = ('list', 'tuple', 'ndarray', 'np64', 'list')
+
+def _offset_as(off, ot):
+    """the same integer offset in the container types callers really pass: list (default), tuple (what intersection_shift and
+    _merge_offset return), ndarray, list of np.int64"""
+    if ot == 'tuple': return (int(off[0]), int(off[1]))
+    if ot == 'ndarray': return np.array([int(off[0]), int(off[1])])
+    if ot == 'np64': return [np.int64(off[0]), np.int64(off[1])]
+    return [int(off[0]), int(off[1])]
+
 def _F(f, ps=None):
     import lentil
     from lentil.field import Field
-    return Field(np_data(f), pixelscale=ps, offset=list(f['off']))
+    return Field(np_data(f), pixelscale=ps, offset=_offset_as(f['off'], f.get('ot', 'list')))
+
+def _case_fields(c):
+    out = [c[k] for k in ('a', 'b', 'field') if isinstance(c.get(k), dict) and 'off' in c[k]]
+    for k in ('fields', 'cs'): out += list(c.get(k) or [])
+    return out
+
+def _vary_offset_types(cases, rng):
+    """the container type of every field's offset is drawn too (the value is the same): half of the fields keep a list"""
+    for c in cases:
+        for f in _case_fields(c):
+            if rng.integers(0, 2): f['ot'] = _OTYPES[int(rng.integers(0, len(_OTYPES)))]
+    return cases
 
 def _snap(Fs):
     """byte-exact snapshot of operand fields: data bytes/shape/dtype, offset, cached extent"""
